@@ -123,15 +123,30 @@ def pointPc (s : SSys) : String → Option (Option CPc)
   | "post.sent" => some (some .checkSuspended)
   | "post.dropped" => some (some .checkSuspended)
   | "close.posted" => some none
-  | "suspend.flagged" => some (some (afterGuard s))
   | "suspend.already" => some (some .closeQuit)
-  | "suspend.signalled" => some (some (afterSignal s))
+  | "parser.closeSent" => some (some (afterSignal s))
   | "suspend.da1" => some (some (afterDA1 s))
-  | "suspend.closed" => some (some .closeQuit)
+  | "parser.closedTaken" => some (some .closeQuit)
   | "close.quit" => some (some .returned)
   | _ => none
 
 def fuelW : Nat := 80
+
+/-- step caller `j` (or the input goroutine inside `Close`, `j = none`) until it is at `target`;
+a yield point may stand for more than one step (the guard of `Suspend` has no point of its own) -/
+def stepUntil (target : CPc) (j : Option Nat) : Nat → SSys → Except String SSys
+  | 0, _ => .error "does not reach the program counter of the yield point"
+  | n + 1, s =>
+    let l : SLabel := match j with | some j => .caller j | none => .inputStep
+    match stepWeak fuelW s l with
+    | none => .error "blocked in the model"
+    | some s' =>
+      let got : Option CPc := match j with
+        | some j => s'.callers[j]?.map (·.pc)
+        | none => match s'.ipc with | .closing c => some c | .done => some .returned | _ => none
+      if got == some target then .ok s'
+      else if got == some .returned || got == none then .error s!"the model is at {(got.map pcName).getD "?"}"
+      else stepUntil target j n s'
 
 def replayItem (r : Replay) (item : String) : Except String Replay :=
   match item.splitOn ":" with
@@ -171,24 +186,18 @@ def replayItem (r : Replay) (item : String) : Except String Replay :=
     | none => .error s!"unknown yield point {point}"
     | some none => .ok r
     | some (some expect) =>
-      if role == "I" then
-        match stepWeak fuelW r.s .inputStep with
-        | none => .error s!"{item}: blocked in the model"
-        | some s' =>
-          let got : Option CPc := match s'.ipc with | .closing c => some c | .done => some .returned | _ => none
-          if got == some expect then
-            if point == "post.sent" && !(r.s.queueLen < r.s.qcap) then .error "post.sent with a full queue"
-            else .ok { r with s := s' }
-          else .error s!"{item}: the model is at {(got.map pcName).getD "?"}"
-      else match r.roles.lookup role with
-        | none => .error s!"{item}: unknown role"
-        | some j =>
-          match stepWeak fuelW r.s (.caller j) with
-          | none => .error s!"{item}: blocked in the model"
-          | some s' =>
-            let got := s'.callers[j]?.map (·.pc)
-            if got == some expect then .ok { r with s := s' }
-            else .error s!"{item}: the model is at {(got.map pcName).getD "?"}"
+      let who : Except String (Option Nat) :=
+        if role == "I" then .ok none else match r.roles.lookup role with
+          | some j => .ok (some j)
+          | none => .error "unknown role"
+      match who with
+      | .error e => .error s!"{item}: {e}"
+      | .ok j =>
+        if !r.s.consumer && point == "post.sent" && !(r.s.queueLen < r.s.qcap) then .error "post.sent with a full queue"
+        else if !r.s.consumer && point == "post.dropped" && r.s.queueLen < r.s.qcap then .error "post.dropped although the queue has room"
+        else match stepUntil expect j 3 r.s with
+          | .ok s' => .ok { r with s := s' }
+          | .error e => .error s!"{item}: {e}"
   | _ => .error s!"malformed trace item {item}"
 
 def replayTrace (r : Replay) : List String → Except String Replay
